@@ -79,7 +79,7 @@ Proof.
 Qed.
 
 Section Reader.
-  Variable dec mac : bytes -> option bytes -> bytes -> result bytes.
+  Variable mac : bytes -> option bytes -> bytes -> result bytes.
   Variable check : bool.
 
   (* the reader's MAC test is the layout's MAC clause *)
@@ -171,3 +171,238 @@ Section Reader.
     eexists. split; reflexivity.
   Qed.
 End Reader.
+
+(* what the reader makes of one field record *)
+Definition enc_tagged (tags : list tag) : bool :=
+  match dict_get N.eqb tags BF3TAG_ENC with
+  | Some v => bytes_eqb v enc_tag_value
+  | None => false
+  end.
+
+(* Bf3Component.__init__: actual_len or len(blob) *)
+Definition declared (actual : N) (blob : bytes) : N :=
+  if actual =? 0 then blen blob else actual.
+
+Section Reader2.
+  Variable dec mac : bytes -> option bytes -> bytes -> result bytes.
+  Variable check : bool.
+
+  Definition field_comp (k : bytes) (f : field_record) (c : comp) : Prop :=
+    c_desc c = ef_tags (fr_entry f) /\
+    (if enc_tagged (ef_tags (fr_entry f))
+     then dec k None (fr_payload f) = Ok (c_blob c) /\ c_enc c = true
+     else c_blob c = fr_payload f /\ c_enc c = false) /\
+    c_alen c = declared (ef_actual (fr_entry f)) (c_blob c).
+
+  Definition decryptable (k : bytes) (fs : list field_record) : Prop :=
+    Forall (fun f => enc_tagged (ef_tags (fr_entry f)) = true ->
+                     exists p, dec k None (fr_payload f) = Ok p) fs.
+
+  Definition len_ok (e : dentry) : Prop := e_alen e <= e_total e.
+
+  Lemma parse_dir_sound fuel : forall dr len ndx k acc es dr',
+    parse_dir mac fuel dr len ndx check k acc = Ok (es, dr') -> len < 256 ->
+    exists es' ents, es = rev acc ++ es' /\
+      be 1 len ++ rest dr = ents ++ [x00] ++ rest dr' /\
+      is_entries mac check k ndx (map ef_of es') ents /\ Forall len_ok es'.
+  Proof.
+    induction fuel as [|fuel IH]; intros dr len ndx k acc es dr' H Hlen; [discriminate H|].
+    cbn [parse_dir] in H. destruct (len =? 0) eqn:Ez.
+    - apply N.eqb_eq in Ez. subst len. inversion H; subst. exists [], [].
+      rewrite app_nil_r. split; [reflexivity|]. split; [reflexivity|]. split; constructor.
+    - binv H as [entry dr1] E1. binv H as [e er] E2. binv H as [len' dr2] E3. binv H as u E4.
+      apply rd_read_ok in E1 as [R1 [Le _]].
+      apply (rd_read_int_inv 1) in E3 as [R3 [Hl' _]].
+      apply rd_ensure_eof_inv in E4.
+      destruct (parse_entry_sound mac check _ _ _ _ _ E2 E4) as [Hde Hlo].
+      destruct (IH _ _ _ _ _ _ _ H Hl') as [es' [ents [-> [Eb [Hents Hall]]]]].
+      exists (e :: es'), (be 1 (blen entry) ++ entry ++ ents).
+      split; [cbn [rev]; rewrite <- app_assoc; reflexivity|].
+      split; [rewrite R1, R3, Le, Eb, <- !app_assoc; reflexivity|].
+      split; [|constructor; assumption].
+      cbn [map]. constructor; [exact Hde|rewrite Le; exact Hlen|exact Hents].
+  Qed.
+
+  Lemma parse_dir_complete k idx efs ents : is_entries mac check k idx efs ents ->
+    Forall (fun f => ef_actual f <= ef_total f) efs ->
+    forall fuel acc tail p, (length efs < fuel)%nat ->
+    parse_dir' mac fuel (mkR (ents ++ [x00] ++ tail) p) idx check k acc =
+      Ok (rev acc ++ map dentry_of efs, mkR tail (p + blen ents + 1)).
+  Proof.
+    induction 1 as [idx|idx f fs e rest He Le Hr IH]; intros Hall fuel acc tail p Hf;
+      (destruct fuel as [|fuel]; [simpl in Hf; lia|]); unfold parse_dir'.
+    - cbn [app]. change (x00 :: tail) with (be 1 0 ++ tail).
+      rewrite (rd_read_int_be 1 0) by (vm_compute; reflexivity). cbn [bind parse_dir N.eqb map].
+      rewrite app_nil_r. f_equal. f_equal. f_equal. rewrite blen_nil. change (N.of_nat 1) with 1. lia.
+    - inversion Hall as [|? ? Hf1 Hall']; subst.
+      rewrite <- !app_assoc.
+      rewrite (rd_read_int_be 1 (blen e)) by exact Le. cbn [bind parse_dir].
+      pose proof (dir_entry_len _ _ _ _ _ _ _ _ _ _ He) as L45.
+      destruct (blen e =? 0) eqn:Ez; [apply N.eqb_eq in Ez; lia|].
+      rewrite rd_read_app. cbn [bind].
+      destruct (parse_entry_complete mac check _ _ _ _ _ _ _ _ He Hf1) as [er [Epe Her]].
+      rewrite Epe. cbn [bind].
+      specialize (IH Hall' fuel (dentry_of f :: acc) tail (p + N.of_nat 1 + blen e) ltac:(simpl in Hf; lia)).
+      unfold parse_dir' in IH.
+      destruct (rd_read_int 1 {| rest := rest ++ [x00] ++ tail; pos := p + N.of_nat 1 + blen e |})
+        as [[len' dr']|] eqn:Er; cbn [bind] in IH |- *; [|discriminate].
+      unfold rd_ensure_eof, rd_eof. rewrite Her. cbn [bind].
+      replace (mkDentry (ef_adr f) (ef_total f) (ef_actual f) (ef_pmac f) (ef_tags f)) with (dentry_of f) by reflexivity.
+      rewrite IH. cbn [rev map]. rewrite <- app_assoc. cbn [app].
+      f_equal. f_equal. f_equal. rewrite !blen_app, be_blen. change (N.of_nat 1) with 1. lia.
+  Qed.
+
+  Lemma dir_from_binary_sound r k es r' :
+    dir_from_binary mac r check k = Ok (es, r') ->
+    exists ents, rest r = be 4 (blen (ents ++ [x00])) ++ (ents ++ [x00]) ++ rest r' /\
+      blen (ents ++ [x00]) < 2 ^ 32 /\ pos r' = pos r + 4 + blen (ents ++ [x00]) /\
+      is_entries mac check k 1 (map ef_of es) ents /\ Forall len_ok es.
+  Proof.
+    unfold dir_from_binary. intro H.
+    binv H as [total r1] E1. binv H as [db r2] E2. binv H as [len dr1] E3.
+    binv H as [es' dr2] E4. binv H as u E5. inversion H; subst es' r2. clear H.
+    apply (rd_read_int_inv 4) in E1 as [R1 [Htot P1]].
+    apply rd_read_ok in E2 as [R2 [Ldb P2]].
+    apply (rd_read_int_inv 1) in E3 as [R3 [Hlen _]]. cbn [new_reader rest] in R3.
+    apply rd_ensure_eof_inv in E5.
+    destruct (parse_dir_sound _ _ _ _ _ _ _ _ E4 Hlen) as [es' [ents [Ees [Eb [Hents Hall]]]]].
+    cbn [rev app] in Ees. subst es'. rewrite E5 in Eb. rewrite <- R3 in Eb.
+    change ([x00] ++ []) with [x00] in Eb.
+    exists ents. rewrite <- Eb, Ldb, R1, R2.
+    split; [reflexivity|]. split; [rewrite <- p32; exact Htot|]. split; [|split; assumption].
+    rewrite P2, P1. change (N.of_nat 4) with 4. reflexivity.
+  Qed.
+
+  Lemma dir_from_binary_complete k efs ents tail p :
+    is_entries mac check k 1 efs ents -> Forall (fun f => ef_actual f <= ef_total f) efs ->
+    blen (ents ++ [x00]) < 2 ^ 32 ->
+    dir_from_binary mac (mkR (be 4 (blen (ents ++ [x00])) ++ (ents ++ [x00]) ++ tail) p) check k =
+      Ok (map dentry_of efs, mkR tail (p + 4 + blen (ents ++ [x00]))).
+  Proof.
+    intros He Hall Hs. unfold dir_from_binary.
+    rewrite (rd_read_int_be 4 _) by (rewrite p32; exact Hs). cbn [bind].
+    rewrite rd_read_app. cbn [bind].
+    assert (Hn : (length efs < S (length (ents ++ [x00])))%nat).
+    { clear - He. induction He; cbn [length]; [lia|].
+      rewrite !app_length in *. rewrite be_length. cbn [length] in *. lia. }
+    pose proof (parse_dir_complete k 1 efs ents He Hall (S (length (ents ++ [x00]))) [] [] 0 Hn) as Hp.
+    unfold parse_dir' in Hp. change ([x00] ++ []) with [x00] in Hp. unfold new_reader.
+    destruct (rd_read_int 1 {| rest := ents ++ [x00]; pos := 0 |}) as [[len dr]|] eqn:Er;
+      cbn [bind] in Hp |- *; [|discriminate].
+    rewrite Hp. cbn [bind rev app]. unfold rd_ensure_eof, rd_eof. cbn [rest bind].
+    change (N.of_nat 4) with 4. reflexivity.
+  Qed.
+
+  Lemma read_comps_sound k : forall es r cs r',
+    read_comps dec mac es r check k = Ok (cs, r') -> Forall len_ok es ->
+    exists fs pl, map fr_entry fs = map ef_of es /\ rest r = pl ++ rest r' /\
+      payloads_at mac check k (pos r) fs pl /\ Forall2 (field_comp k) fs cs.
+  Proof.
+    induction es as [|e es IH]; intros r cs r' H Hall; cbn [read_comps] in H.
+    - inversion H; subst. exists [], []. repeat split; constructor.
+    - destruct (e_adr e =? pos r) eqn:Ea; cbn [negb] in H; [|discriminate H]. apply N.eqb_eq in Ea.
+      binv H as [payload r1] E1. binv H as u E2. binv H as c E3. binv H as [cs' r2] E4.
+      inversion H; subst cs r2. clear H.
+      inversion Hall as [|? ? Hlo Hall']; subst.
+      apply rd_read_ok in E1 as [R1 [Lp P1]].
+      destruct u. apply reader_mac_check' in E2.
+      destruct (IH _ _ _ E4 Hall') as [fs [pl [Em [R2 [Hp Hc]]]]].
+      exists (mkFR (ef_of e) payload :: fs), (payload ++ pl).
+      split; [cbn [map fr_entry]; rewrite Em; reflexivity|].
+      split; [rewrite R1, R2, app_assoc; reflexivity|]. split.
+      + apply (pl_cons mac check k (pos r) (mkFR (ef_of e) payload) fs pl);
+          cbn [fr_entry fr_payload ef_of ef_adr ef_total ef_actual ef_pmac]; auto.
+        rewrite Lp, <- P1. exact Hp.
+      + constructor; [|exact Hc]. unfold field_comp, enc_tagged.
+        cbn [fr_entry fr_payload ef_of ef_tags ef_actual].
+        assert (Hmk : forall b en, c_desc (mk_comp (e_desc e) b (Some (e_alen e)) en) = e_desc e /\
+                  c_blob (mk_comp (e_desc e) b (Some (e_alen e)) en) = b /\
+                  c_enc (mk_comp (e_desc e) b (Some (e_alen e)) en) = en /\
+                  c_alen (mk_comp (e_desc e) b (Some (e_alen e)) en) = declared (e_alen e) b).
+        { intros b en. unfold mk_comp, declared. cbn. destruct (e_alen e); auto. }
+        destruct (dict_get N.eqb (e_desc e) BF3TAG_ENC) as [v|]; [destruct (bytes_eqb v enc_tag_value)|].
+        * binv E3 as b Ed. inversion E3; subst c. destruct (Hmk b true) as [H1 [H2 [H3 H4]]].
+          rewrite H1, H2, H3, H4. auto.
+        * inversion E3; subst c. destruct (Hmk payload false) as [H1 [H2 [H3 H4]]].
+          rewrite H1, H2, H3, H4. auto.
+        * inversion E3; subst c. destruct (Hmk payload false) as [H1 [H2 [H3 H4]]].
+          rewrite H1, H2, H3, H4. auto.
+  Qed.
+
+  Lemma read_comps_complete k a fs pl : payloads_at mac check k a fs pl -> decryptable k fs ->
+    forall tail, exists cs,
+      read_comps dec mac (map dentry_of (map fr_entry fs)) (mkR (pl ++ tail) a) check k =
+        Ok (cs, mkR tail (a + blen pl)) /\ Forall2 (field_comp k) fs cs.
+  Proof.
+    induction 1 as [a|a f fs rest Ha Ht Hc Hm Hr IH]; intros Hd tail.
+    - exists []. cbn. rewrite N.add_0_r. split; [reflexivity|constructor].
+    - inversion Hd as [|? ? Hd1 Hd']; subst.
+      destruct (IH Hd' tail) as [cs [Erc Hfc]].
+      cbn [map read_comps dentry_of e_adr e_total e_pmac e_desc e_alen pos].
+      rewrite N.eqb_refl. cbn [negb]. rewrite Ht, <- app_assoc, rd_read_app. cbn [bind].
+      rewrite (proj2 (reader_mac_check' mac check _ _ _ _) Hm). cbn [bind].
+      assert (Hmk : forall b en, c_desc (mk_comp (ef_tags (fr_entry f)) b (Some (ef_actual (fr_entry f))) en) = ef_tags (fr_entry f) /\
+                c_blob (mk_comp (ef_tags (fr_entry f)) b (Some (ef_actual (fr_entry f))) en) = b /\
+                c_enc (mk_comp (ef_tags (fr_entry f)) b (Some (ef_actual (fr_entry f))) en) = en /\
+                c_alen (mk_comp (ef_tags (fr_entry f)) b (Some (ef_actual (fr_entry f))) en) = declared (ef_actual (fr_entry f)) b).
+      { intros b en. unfold mk_comp, declared. cbn. destruct (ef_actual (fr_entry f)); auto. }
+      unfold field_comp. unfold enc_tagged in *.
+      destruct (dict_get N.eqb (ef_tags (fr_entry f)) BF3TAG_ENC) as [v|] eqn:Eg;
+        [destruct (bytes_eqb v enc_tag_value) eqn:Ev|].
+      + destruct (Hd1 eq_refl) as [p Ep]. rewrite Ep. cbn [bind]. rewrite Erc. cbn [bind].
+        eexists. split; [f_equal; f_equal; f_equal; rewrite blen_app; lia|].
+        constructor; [|exact Hfc]. rewrite Eg, Ev. destruct (Hmk p true) as [H1 [H2 [H3 H4]]].
+        rewrite H1, H2, H3, H4. auto.
+      + cbn [bind]. rewrite Erc. cbn [bind].
+        eexists. split; [f_equal; f_equal; f_equal; rewrite blen_app; lia|].
+        constructor; [|exact Hfc]. rewrite Eg, Ev. destruct (Hmk (fr_payload f) false) as [H1 [H2 [H3 H4]]].
+        rewrite H1, H2, H3, H4. auto.
+      + cbn [bind]. rewrite Erc. cbn [bind].
+        eexists. split; [f_equal; f_equal; f_equal; rewrite blen_app; lia|].
+        constructor; [|exact Hfc]. rewrite Eg. destruct (Hmk (fr_payload f) false) as [H1 [H2 [H3 H4]]].
+        rewrite H1, H2, H3, H4. auto.
+  Qed.
+
+  Lemma field_comp_decryptable k fs cs : Forall2 (field_comp k) fs cs -> decryptable k fs.
+  Proof.
+    induction 1 as [|f c fs cs [_ [H _]] _ IH]; constructor; [|exact IH].
+    intro Ht. rewrite Ht in H. destruct H as [H _]. eexists. exact H.
+  Qed.
+
+  Theorem from_binary_sound b off k cs :
+    from_binary dec mac (mkR b off) check k = Ok cs ->
+    exists fs, is_bf3_body_gen mac check off k fs b /\ Forall2 (field_comp k) fs cs.
+  Proof.
+    unfold from_binary. intro H.
+    binv H as [es r1] E1. binv H as [cs' r2] E2. binv H as u E3. inversion H; subst cs'. clear H.
+    apply dir_from_binary_sound in E1 as [ents [R1 [Hs [P1 [Hents Hall]]]]]. cbn [rest pos] in R1, P1.
+    apply rd_ensure_eof_inv in E3.
+    destruct (read_comps_sound _ _ _ _ _ E2 Hall) as [fs [pl [Em [R2 [Hp Hc]]]]].
+    rewrite E3, app_nil_r in R2. exists fs. split; [|exact Hc].
+    rewrite R1, R2. constructor; [rewrite Em; exact Hents|exact Hs|rewrite <- P1; exact Hp].
+  Qed.
+
+  Lemma payloads_at_len_ok k a fs pl : payloads_at mac check k a fs pl ->
+    Forall (fun f => ef_actual f <= ef_total f) (map fr_entry fs).
+  Proof. induction 1; constructor; assumption. Qed.
+
+  Theorem from_binary_complete b off k fs :
+    is_bf3_body_gen mac check off k fs b -> decryptable k fs ->
+    exists cs, from_binary dec mac (mkR b off) check k = Ok cs /\ Forall2 (field_comp k) fs cs.
+  Proof.
+    intros [ents pl He Hs Hp] Hd. unfold from_binary.
+    rewrite (dir_from_binary_complete k _ ents pl off He (payloads_at_len_ok _ _ _ _ Hp) Hs). cbn [bind].
+    destruct (read_comps_complete k _ fs pl Hp Hd []) as [cs [Erc Hfc]].
+    rewrite app_nil_r in Erc. rewrite Erc. cbn [bind]. exists cs. split; [reflexivity|exact Hfc].
+  Qed.
+
+  Theorem from_binary_accept_iff b off k :
+    (exists cs, from_binary dec mac (mkR b off) check k = Ok cs) <->
+    (exists fs, is_bf3_body_gen mac check off k fs b /\ decryptable k fs).
+  Proof.
+    split.
+    - intros [cs H]. destruct (from_binary_sound _ _ _ _ H) as [fs [Hb Hc]].
+      exists fs. split; [exact Hb|eapply field_comp_decryptable; exact Hc].
+    - intros [fs [Hb Hd]]. destruct (from_binary_complete _ _ _ _ Hb Hd) as [cs [H _]]. exists cs. exact H.
+  Qed.
+End Reader2.
